@@ -101,3 +101,22 @@ Qed.
 
 Lemma wf_app a b : wf_bytes a -> wf_bytes b -> wf_bytes (a ++ b).
 Proof. unfold wf_bytes. intros; apply Forall_app; auto. Qed.
+
+Lemma nth_firstn_lt {A} (l : list A) n k d : (n < k)%nat -> nth n (firstn k l) d = nth n l d.
+Proof.
+  revert n k; induction l as [|a l IH]; intros n k H.
+  - rewrite firstn_nil. reflexivity.
+  - destruct k; [lia|]. destruct n; cbn; auto. apply IH. lia.
+Qed.
+
+Lemma nth_skipn_add {A} (l : list A) n k d : nth n (skipn k l) d = nth (k + n) l d.
+Proof.
+  revert l; induction k as [|k IH]; intros l; cbn [skipn Nat.add]; auto.
+  destruct l; cbn [nth]; [destruct n; reflexivity|]. apply IH.
+Qed.
+
+Lemma skipn_skipn_add {A} (l : list A) a b : skipn a (skipn b l) = skipn (b + a) l.
+Proof.
+  revert l; induction b as [|b IH]; intros l; cbn [skipn Nat.add]; auto.
+  destruct l; [destruct a; reflexivity|]. apply IH.
+Qed.
